@@ -28,7 +28,7 @@ class Undefined(Exception):
     """the statement does not fix the meaning of this program"""
 
 
-FIELDS = {"T1": ["a"], "T2": ["a", "b"], "T3": ["a", "b", "c"], "L": ["a"], "Sub1": ["a"],
+FIELDS = {"T1": ["a"], "T2": ["a", "b"], "T3": ["a", "b", "c"], "L": ["a"], "LE": ["a"], "Sub1": ["a"],
           "Sub2": ["a", "b"]}
 
 
@@ -45,6 +45,8 @@ def apply_kind(kind, vals):
         return f"g({fmt(vals['a'])},{fmt(vals['b'])})"
     if kind == "T3":
         return f"h({fmt(vals['a'])},{fmt(vals['b'])},{fmt(vals['c'])})"
+    if kind == "LE":  # a list output that is empty at run time
+        return []
     if kind == "L":
         return [f"{fmt(vals['a'])}.0", f"{fmt(vals['a'])}.1"]
     if kind == "Sub1":  # nested workflow: T1 -> T1
@@ -80,6 +82,7 @@ def evaluate(prog, inputs=None):
             rows = [dict(p, **c) for p in rows for c in ucoords if all(p[ax] == c[ax] for ax in shared)]
             axes = axes + new_axes
         # ---- own splitter
+        parent_rows, parent_axes = list(rows), list(axes)  # the merged upstream state
         fld_axis = {}
         sn = [f for f in fields if nd["in"][f][0] == "splitnode"]
         if sn:
@@ -145,7 +148,8 @@ def evaluate(prog, inputs=None):
                     deps.append(fmt(whole))
             out = apply_kind(nd["kind"], vals)
             out_rows.append((c, out))
-            jobs.append(dict(node=nd["name"], token=fmt(out), deps=sorted(set(deps))))
+            token = f"e({fmt(vals['a'])})" if nd["kind"] == "LE" else fmt(out)
+            jobs.append(dict(node=nd["name"], token=token, deps=sorted(set(deps))))
         # ---- combiner
         if nd.get("combine"):
             caxes = []
@@ -160,6 +164,11 @@ def evaluate(prog, inputs=None):
                 caxes.extend(h for h in hit if h not in caxes)
             rem = [ax for ax in axes if ax not in caxes]
             groups = OrderedDict()
+            if all(ax in parent_axes for ax in rem):
+                # nested-loop reading: every element of the surrounding (upstream) loops yields a
+                # group, an empty one when the combined inner loops had nothing to iterate over
+                for p in parent_rows:
+                    groups.setdefault(tuple(p[ax] for ax in rem), [])
             for c, v in out_rows:
                 groups.setdefault(tuple(c[ax] for ax in rem), []).append(v)
             out_rows = [(dict(zip(rem, k)), vs) for k, vs in groups.items()]
@@ -177,7 +186,7 @@ def evaluate(prog, inputs=None):
 
 def _lookup(U, coords):
     if not U["axes"]:
-        return U["rows"][0][1]
+        return U["rows"][0][1] if U["rows"] else []  # everything combined, no jobs: empty list
     m = [v for cc, v in U["rows"] if all(coords[ax] == cc[ax] for ax in U["axes"])]
     if len(m) != 1:
         raise Undefined(f"{len(m)} upstream results match")
@@ -261,8 +270,10 @@ def labels(prog):
             origin[nd["name"]] = o | own
         if nd["kind"].startswith("Sub"):
             out.add("nested_workflow")
-        if nd["kind"] == "L":
+        if nd["kind"] in ("L", "LE"):
             out.add("list_output")
+        if nd["kind"] == "LE":
+            out.add("empty_list_output")
         if ups and not own and o:
             out.add("propagated_state")
         stateful[nd["name"]] = bool(origin[nd["name"]])
